@@ -36,19 +36,31 @@ func dstKind(d string) string {
 	return d
 }
 
-// WStep writes one item to the destination Dst (modulo the number of destinations).
+// WStep writes one item to the destination Dst (modulo the number of destinations). Fork: before the item is written,
+// every framing destination of the goroutine gets a by-value copy of the goroutine's writer AS IT IS NOW as its inner
+// writer (`inner = *ow`, Writer re-pointed to the frame's own output) - the sink of a writer then owns a copy of it.
 type WStep struct {
 	Item Item `json:"item"`
 	Dst  int  `json:"dst"`
+	Fork bool `json:"fork,omitempty"`
 }
 
 // Case15W is a writer history for C15: every sequence is run by its own goroutine through ONE ObjectsWriter value
 // whose exported Writer field is re-pointed before every item to one of that goroutine's own destinations
 // (one instance of every kind in Dsts per goroutine). One sequence = no concurrency.
+//
+// ObjectsWriter is a plain exported struct (an exported io.Writer field and a scratch array), it carries no "must not be
+// copied" remark and the package's own tests use it as a value, so `w2 := w1` is an ordinary way to obtain a writer.
+// Copy: a base writer first writes the items Pre into a bytes.Buffer (none: it stays unused); then every writer of the
+// history - the one of each goroutine and the inner one of each framing destination - starts as `w := base`, a by-value
+// copy of that base writer, instead of a zero value. The copies are used interleaved (a framing destination encodes its
+// frame header with its copy while the outer copy is inside Writer.Write) and by different goroutines on separate sinks.
 type Case15W struct {
 	Dsts []string  `json:"dsts"`
 	Seqs [][]WStep `json:"seqs"`
 	P1   bool      `json:"p1,omitempty"` // run with GOMAXPROCS(1)
+	Pre  []Item    `json:"pre,omitempty"`
+	Copy bool      `json:"copy,omitempty"`
 }
 
 // Hash identifies the case.
@@ -64,11 +76,15 @@ type Info15W struct {
 	StringsOrBytes int
 	LowSpace       int // items written when the bufio destination had fewer than 10 free bytes
 	NoSpace        int // ... had no free byte at all
+	CopiesUsed     int // writer values that started as a by-value copy of a writer that had written something
+	CopiesUnused   int // ... of a writer that had not
+	Forks          int // framing destinations whose inner writer was replaced by a copy of the outer writer in mid-history
+	ForksUsed      int // ... when the outer writer had already written something
 }
 
 // NonTrivial: the history differs from "one fresh ObjectsWriter into one bytes.Buffer".
 func (i Info15W) NonTrivial() bool {
-	return i.Repoints > 0 || i.Goroutines > 1 || i.kinds[DFrame] || i.kinds[DYield] || i.kinds[DPlain] || i.kinds[DBufio]
+	return i.Repoints > 0 || i.Goroutines > 1 || i.kinds[DFrame] || i.kinds[DYield] || i.kinds[DPlain] || i.kinds[DBufio] || i.CopiesUsed > 0 || i.ForksUsed > 0
 }
 
 // Classes for the histogram.
@@ -93,6 +109,24 @@ func (i Info15W) Classes() []string {
 	}
 	if i.StringsOrBytes >= 2 {
 		c = append(c, "writers_ge_2_byte_strings")
+	}
+	if i.CopiesUsed > 0 {
+		c = append(c, "writers_are_copies_of_a_used_writer")
+		if i.kinds[DFrame] {
+			c = append(c, "writers_copies_of_a_used_writer_nested_in_framing_sink")
+		}
+		if i.Goroutines > 1 {
+			c = append(c, "writers_copies_of_a_used_writer_on_ge_2_goroutines")
+		}
+	}
+	if i.CopiesUnused > 0 {
+		c = append(c, "writers_are_copies_of_an_unused_writer")
+	}
+	if i.Forks > 0 {
+		c = append(c, "writers_framing_sink_given_copy_of_outer_writer")
+	}
+	if i.ForksUsed > 0 {
+		c = append(c, "writers_framing_sink_given_copy_of_used_outer_writer")
 	}
 	return c
 }
@@ -174,10 +208,20 @@ type frameDest struct {
 	bad   *vstat.Violation
 }
 
-func newFrameDest() *frameDest {
+// newFrameDest: the inner writer is a zero value or (from != nil) a by-value copy of *from.
+func newFrameDest(from *xbinary.ObjectsWriter) *frameDest {
 	d := &frameDest{}
+	if from != nil {
+		d.inner = *from
+	}
 	d.inner.Writer = &d.out
 	return d
+}
+
+// adopt replaces the inner writer by a by-value copy of *from (called between two items of the owning goroutine).
+func (d *frameDest) adopt(from *xbinary.ObjectsWriter) {
+	d.inner = *from
+	d.inner.Writer = &d.out
 }
 
 func (d *frameDest) Write(p []byte) (int, error) {
@@ -208,7 +252,7 @@ func (d *frameDest) payload() ([]byte, *vstat.Violation) {
 	return body, nil
 }
 
-func newDest(kind string) dest {
+func newDest(kind string, from *xbinary.ObjectsWriter) dest {
 	switch dstKind(kind) {
 	case DBufio:
 		return newBufioDest(kind)
@@ -219,7 +263,7 @@ func newDest(kind string) dest {
 	case DYield:
 		return &yieldDest{}
 	case DFrame:
-		return newFrameDest()
+		return newFrameDest(from)
 	}
 	panic("bad destination kind " + kind)
 }
@@ -240,19 +284,59 @@ func Run15W(c Case15W) (info Info15W, v *vstat.Violation) {
 	info.P1 = c.P1
 	info.kinds = map[string]bool{}
 	type prepared struct {
-		cds  []codec
-		want [][]byte // per destination
-		dsts []dest
-		v    *vstat.Violation
-		low  int
-		full int
+		cds   []codec
+		want  [][]byte // per destination
+		dsts  []dest
+		ow    *xbinary.ObjectsWriter
+		v     *vstat.Violation
+		low   int
+		full  int
+		forks [2]int // framing destinations that adopted a copy of the outer writer: [0] all, [1] when it had written
 	}
 	var scratch Info15
+	// the base writer: used for the items Pre (oracle as for every other write), then only copied
+	var base *xbinary.ObjectsWriter
+	if c.Copy {
+		var preBuf, preWant bytes.Buffer
+		base = &xbinary.ObjectsWriter{Writer: &preBuf}
+		for i, it := range c.Pre {
+			cd := it.codec(&scratch)
+			enc := make([]byte, cd.size)
+			if n, err := cd.marshal(enc); err != nil || n != cd.size {
+				return info, vstat.V("xbin:size-law", "base writer item #%d %s: Marshal into the predicted size %d returned (%d, %v)", i, cd.name, cd.size, n, err)
+			}
+			preWant.Write(enc)
+			if n, err := cd.write(base); err != nil || n != cd.size {
+				return info, vstat.V("xbin:writer-count", "base writer item #%d %s: ObjectsWriter returned (%d, %v), Marshal wrote %d", i, cd.name, n, err, cd.size)
+			}
+		}
+		if !bytes.Equal(preBuf.Bytes(), preWant.Bytes()) {
+			return info, vstat.V("xbin:writer-bytes", "base writer: ObjectsWriter emitted %s, Marshal %s", short(preBuf.Bytes()), short(preWant.Bytes()))
+		}
+	}
+	copied := func(n int) {
+		if base == nil {
+			return
+		}
+		if len(c.Pre) > 0 {
+			info.CopiesUsed += n
+		} else {
+			info.CopiesUnused += n
+		}
+	}
 	ps := make([]*prepared, len(c.Seqs))
 	for g, seq := range c.Seqs {
-		p := &prepared{want: make([][]byte, len(c.Dsts))}
+		p := &prepared{want: make([][]byte, len(c.Dsts)), ow: &xbinary.ObjectsWriter{}}
+		if base != nil {
+			w := *base // by-value copy of the (used) base writer
+			p.ow = &w
+			copied(1)
+		}
 		for _, k := range c.Dsts {
-			p.dsts = append(p.dsts, newDest(k))
+			p.dsts = append(p.dsts, newDest(k, base))
+			if dstKind(k) == DFrame {
+				copied(1)
+			}
 		}
 		last := -1
 		for i, st := range seq {
@@ -289,11 +373,22 @@ func Run15W(c Case15W) (info Info15W, v *vstat.Violation) {
 				p.v = panicViolation("xbin:c15-panic", r)
 			}
 		}()
-		ow := &xbinary.ObjectsWriter{}
+		ow := p.ow
 		for i, st := range c.Seqs[g] {
 			j := st.Dst % len(c.Dsts)
 			if j < 0 {
 				j += len(c.Dsts)
+			}
+			if st.Fork {
+				for _, d := range p.dsts {
+					if fd, ok := d.(*frameDest); ok {
+						fd.adopt(ow)
+						p.forks[0]++
+						if i > 0 || (base != nil && len(c.Pre) > 0) {
+							p.forks[1]++
+						}
+					}
+				}
 			}
 			ow.Writer = p.dsts[j].target()
 			if bw, ok := ow.Writer.(*bufio.Writer); ok {
@@ -329,6 +424,8 @@ func Run15W(c Case15W) (info Info15W, v *vstat.Violation) {
 	for _, p := range ps {
 		info.LowSpace += p.low
 		info.NoSpace += p.full
+		info.Forks += p.forks[0]
+		info.ForksUsed += p.forks[1]
 	}
 	for g, p := range ps {
 		if p.v != nil {
